@@ -199,7 +199,16 @@ def decode_json_document(content, document):
 def decode_json_container(jc, bundle):
     if "prefix" in jc:
         prefixes = jc["prefix"]
-        for prefix, uri in prefixes.items():
+        # A prefix that the enclosing document binds to another namespace is
+        # renamed in the bundle: those come last, so that the name generated
+        # for them cannot collide with another prefix of this block.
+        manager = bundle._namespaces
+        ordered = sorted(
+            prefixes.items(),
+            key=lambda item: item[0] != "default"
+            and manager._inherited_differently(item[0], item[1]),
+        )
+        for prefix, uri in ordered:
             if prefix != "default":
                 bundle.add_namespace(Namespace(prefix, uri))
             else:
